@@ -476,6 +476,13 @@ inline py::tuple StructSequenceGetFields(const py::handle& object) {
 }
 
 inline void TotalOrderSort(py::list& list) {  // NOLINT[runtime/references]
+    // A failed `list.sort()` leaves the list partially sorted. Keep the original (insertion) order
+    // to restore it when the keys are not sortable at all.
+    const py::list original = py::reinterpret_steal<py::list>(
+        EVALUATE_WITH_LOCK_HELD(PyList_GetSlice(list.ptr(), 0, PyList_GET_SIZE(list.ptr())), list));
+    if (!original) [[unlikely]] {
+        throw py::error_already_set();
+    }
     try {
         // Sort directly if possible.
         if (static_cast<bool>(EVALUATE_WITH_LOCK_HELD(PyList_Sort(list.ptr()), list)))
@@ -504,6 +511,13 @@ inline void TotalOrderSort(py::list& list) {  // NOLINT[runtime/references]
                     // Found incomparable user-defined key types.
                     // The keys remain in the insertion order.
                     PyErr_Clear();
+                    if (EVALUATE_WITH_LOCK_HELD(PyList_SetSlice(list.ptr(),
+                                                                0,
+                                                                PyList_GET_SIZE(list.ptr()),
+                                                                original.ptr()),
+                                                list) < 0) [[unlikely]] {
+                        throw py::error_already_set();
+                    }
                 } else [[unlikely]] {
                     std::rethrow_exception(std::current_exception());
                 }
